@@ -233,8 +233,32 @@ void h_register_init(void)
   bool be = (T.t->flags & REG_TF_BIG_ENDIAN) != 0;
   rb_snapshot(&T);
   g_rb.init = rb_spec_first_violation(T.area, T.na, T.entry, T.ne, be, rb_cb_verdict);
-  g_rb.init_word = rb_spec_init_word(T.area, T.na, T.entry, T.ne, be, (uint32_t)g_a, (uint32_t)g_k);
-  ASSUME(g_a <= 0xffffffffull && g_k <= 0xffffffffull);
   register_init(T.t);
+  VERIF_CANARY();
+}
+
+/* the same check without the contract machinery: the real call followed by
+ * the clauses of register_init's contract as assertions (bounded model
+ * checking of the whole stack; no frame check beyond the exact-size blocks
+ * and the "unchanged" clauses) */
+void h_register_init_plain(void)
+{
+  GHOST_HAVOC();
+  struct rb_tab T = rb_description();
+  bool be = (T.t->flags & REG_TF_BIG_ENDIAN) != 0;
+  rb_snapshot(&T);
+  g_rb.init = rb_spec_first_violation(T.area, T.na, T.entry, T.ne, be, rb_cb_verdict);
+  RegisterTable *t = T.t;
+  RegisterInit r = register_init(t);
+  CHECK(rb_init_verdict_ok(r, g_rb.init), "init: first violated rule and offender, or success");
+  CHECK(IMPLIES(g_rb.init.code != REG_INIT_SUCCESS, !RB_INITIALISED(t)), "init: failure leaves the table uninitialised");
+  CHECK(IMPLIES(g_rb.init.code == REG_INIT_SUCCESS,
+      RB_INITIALISED(t) && (t->flags & REG_TF_DURING_INIT) == 0 && t->areas == g_rb.na && t->entries == g_rb.ne),
+      "init: success marks the table initialised and records its dimensions");
+  CHECK(RB_BE(t) == be && t->area == T.area && t->entry == T.entry, "init: byte order and lists kept");
+  CHECK(rb_description_same(t, g_rb.area0, g_rb.na, g_rb.entry0, g_rb.ne), "init: description unchanged");
+  CHECK(IMPLIES(g_rb.init.code == REG_INIT_SUCCESS, rb_table_wf(t)), "init: success leaves a well-formed table");
+  CHECK(IMPLIES(g_rb.init.code == REG_INIT_SUCCESS, rb_init_words_ok(t, g_rb.na, g_rb.ne, be)),
+      "init: defaults loaded, every other word zero");
   VERIF_CANARY();
 }
